@@ -10,7 +10,7 @@ def main(argv):
     tier = "quick"
     seed = 0
     S = Server()
-    plan = runner.build_plan(tier)
+    plan = runner.build_plan(tier, None, seed)
     if argv[0] == "find":
         for i, e in enumerate(plan):
             if e[1] and argv[1] in str(e[1]):
